@@ -138,7 +138,7 @@ def drive(c, key="calls"):
                 path = os.path.join(TMP, "c%s_%d.png" % (cid, len(out)))
                 cl.captureScreen(path)
                 from PIL import Image
-                r = Image.open(path).convert("RGB").getpixel((0, 0))[0] // 40
+                r = Image.open(path).convert("RGB").getpixel((0, 0))[0] // 30
             elif call["method"] == "capture_bad":
                 cl.captureScreen(os.path.join(TMP, "no-such-directory", "x.png"))
                 r = "obj"
